@@ -101,6 +101,10 @@ pub enum Action {
     RacePoll(u64, usize),
     RaceRelease(u64, usize),
     RaceTick(u64),
+    /// nested actions between "accept thread told to stop" and "workers told to stop"
+    StopRaceAccept,
+    StopRacePoll(usize),
+    StopRaceTick,
     // Availability component check (C04)
     BitSet(usize, bool),
     BitGet(usize),
@@ -690,6 +694,47 @@ fn race_window(sh: &Rc<Shared>) {
     }
 }
 
+/// The accept thread and the workers run concurrently with the server's Stop handler: between
+/// its wake-up of the accept thread and its messages to the workers anything may happen.
+pub fn stop_window(sh: &Rc<Shared>) {
+    if sh.cfg.race_q == 0 {
+        return;
+    }
+    for _ in 0..6 {
+        let mut en: Vec<(Action, u32)> = Vec::new();
+        if accept_ready(sh) {
+            en.push((Action::StopRaceAccept, 4));
+        }
+        {
+            let ws = sh.workers.borrow();
+            for (s, w) in ws.iter().enumerate() {
+                if w.state == SlotState::Running && w.fut.is_some() && w.flag.fired() {
+                    en.push((Action::StopRacePoll(s), 3));
+                }
+            }
+        }
+        if sh.ls_dirty.get() {
+            en.push((Action::StopRaceTick, 1));
+        }
+        let q = sh.cfg.race_q;
+        let Some(a) = sh.chooser(|ch| ch.choose_nested(&en, q, 4)) else { return };
+        sh.ctx(|ctx| ctx.bump("probe.stop_window_progress"));
+        match a {
+            Action::StopRaceAccept => accept_step(sh, false, true),
+            Action::StopRacePoll(s) => poll_worker(sh, s),
+            Action::StopRaceTick => RACE_TICK.with(|t| {
+                if let Some(f) = t.borrow().as_ref() {
+                    f();
+                }
+            }),
+            _ => {}
+        }
+        if sh.violated() {
+            return;
+        }
+    }
+}
+
 thread_local! {
     // the LocalSet lives in `Sim`; the nested race window reaches it through this raw handle
     static RACE_TICK: std::cell::RefCell<Option<Box<dyn Fn()>>> = const { std::cell::RefCell::new(None) };
@@ -1001,7 +1046,7 @@ async fn exec_action(sim: &mut Sim, a: Action) {
                 ctx.bump("ready_flips");
             });
         }
-        Action::RacePoll(..) | Action::RaceRelease(..) | Action::RaceTick(_) | Action::BitSet(..) | Action::BitGet(_) => {}
+        Action::RacePoll(..) | Action::RaceRelease(..) | Action::RaceTick(_) | Action::StopRaceAccept | Action::StopRacePoll(_) | Action::StopRaceTick | Action::BitSet(..) | Action::BitGet(_) => {}
     }
 }
 
